@@ -1117,3 +1117,100 @@ func derivesIP(v ssa.Value, pred func(ssa.Value) bool, depth int) bool {
 	}
 	return walk(v, nil, depth)
 }
+
+// concreteIfaceTypes: the concrete types an interface value can have, following helper parameters to their call
+// sites, captured variables to their cells, and phis. ok=false when some source cannot be resolved.
+func (p *Prog) concreteIfaceTypes(v ssa.Value, depth int) ([]types.Type, bool) {
+	var out []types.Type
+	ok := true
+	seen := map[ssa.Value]bool{}
+	var walk func(v ssa.Value, d int)
+	walk = func(v ssa.Value, d int) {
+		if seen[v] {
+			return
+		}
+		seen[v] = true
+		switch x := v.(type) {
+		case *ssa.MakeInterface:
+			out = append(out, x.X.Type())
+		case *ssa.Phi:
+			for _, e := range x.Edges {
+				walk(e, d)
+			}
+		case *ssa.ChangeInterface:
+			walk(x.X, d)
+		case *ssa.Parameter:
+			fn := x.Parent()
+			idx := -1
+			for i, q := range fn.Params {
+				if q == x {
+					idx = i
+				}
+			}
+			edges := p.callersOf(fn)
+			if d <= 0 || idx < 0 || len(edges) == 0 {
+				ok = false
+				return
+			}
+			for _, e := range edges {
+				if p.isTestFn(e.Caller.Func) {
+					continue
+				}
+				args := e.Site.Common().Args
+				if e.Site.Common().IsInvoke() || idx >= len(args) {
+					ok = false
+					continue
+				}
+				walk(args[idx], d-1)
+			}
+		case *ssa.UnOp:
+			if x.Op != token.MUL {
+				ok = false
+				return
+			}
+			cell := x.X
+			if fv, isFV := cell.(*ssa.FreeVar); isFV {
+				// binding in the parent
+				fn := fv.Parent()
+				idx := -1
+				for i, q := range fn.FreeVars {
+					if q == fv {
+						idx = i
+					}
+				}
+				found := false
+				if par := fn.Parent(); par != nil && idx >= 0 {
+					eachInstr(par, func(_ *ssa.BasicBlock, _ int, in ssa.Instruction) {
+						if mc, isMC := in.(*ssa.MakeClosure); isMC && mc.Fn == ssa.Value(fn) && idx < len(mc.Bindings) {
+							cell = mc.Bindings[idx]
+							found = true
+						}
+					})
+				}
+				if !found {
+					ok = false
+					return
+				}
+			}
+			al, isAl := cell.(*ssa.Alloc)
+			if !isAl {
+				ok = false
+				return
+			}
+			n := 0
+			for _, r := range *al.Referrers() {
+				if st, isSt := r.(*ssa.Store); isSt && st.Addr == ssa.Value(al) {
+					n++
+					walk(st.Val, d)
+				}
+			}
+			if n == 0 {
+				ok = false
+			}
+		default:
+			ok = false
+		}
+	}
+	walk(v, depth)
+	return out, ok
+}
